@@ -619,6 +619,9 @@ def expr_pool(quick):
         ("some", "Option", call("Some", ("Bin", V("a"), "+", I(1)))),
         # `s` is free only in the key, `a` only in the value
         ("dict-key-var", "Dict", ("Dict", [(V("s"), V("a"))])),
+        # the inner closure has the type Fun<(Int), List<Any>> (z is untyped): an unwritable type nested in a writable one
+        ("closure-nested-any", "List", ("Call", ("Paren", ("Call", ("Paren", ("Lambda", [("z", None)], None, [
+            ("Lambda", [("x", T_INT)], None, [("List", [V("z")])])])), [V("a")])), [I(1)])),
     ]
     if not quick:
         pool += [
@@ -812,6 +815,27 @@ def typed_programs(quick):
                 ("let of let", f"fun main_() {{\n  let t0 = {v}\n  let @t = t0\n  p(t)\n}}\n\nmain_()\n"),
                 ("function return after early return", f"fun @mk() {{\n  if False {{ return {v} }}\n  {v}\n}}\n\np(mk())\n"),
             ]
+        yield from _emit_forms(H, forms, vname)
+    # closures whose type nests an unwritable type (Any from the untyped `y`, an unbound type parameter) inside a writable one,
+    # one and two levels deep: nothing valid can be written for them
+    nested = [
+        ("Fun<(Int), List<Any>>", "fun(x: Int) { [y] }"), ("Fun<(Int), Option<List<Any>>>", "fun(x: Int) { Some([y]) }"),
+        ("Fun<(Int), (Int, Any)>", "fun(x: Int) { (x, y) }"), ("Fun<(Int), Fun<(Int), Any>>", "fun(x: Int) { fun(z: Int) { y } }"),
+        ("Fun<(Int), Fun<(Any), Int>>", "fun(x: Int) { fun(z) { x } }"), ("Fun<(Int), List<NoValue>>", "fun(x: Int) { [] }"),
+        ("Fun<(Int), Fun<(T), Option<T>>>", "fun(x: Int) { Some }"), ("Fun<(Int), List<Fun<(T), T>>>", "fun(x: Int) { [id] }"),
+        ("Fun<(Int), Option<Fun<(Int), List<Any>>>>", "fun(x: Int) { Some(fun(z: Int) { [y] }) }"),
+    ]
+    for vname, c in nested:
+        forms = [
+            ("let in function", f"fun main_(y) {{\n  let @f = {c}\n  p(string_repr(f(1)).len() > 0)\n}}\n\nmain_(7)\n"),
+            ("function return", f"fun @mk@(y) {{\n  {c}\n}}\n\np(string_repr(mk(7)(1)).len() > 0)\n"),
+            ("closure return", f"fun main_(y) {{\n  let g = fun@() {{ {c} }}\n  p(string_repr(g()(1)).len() > 0)\n}}\n\nmain_(7)\n"),
+        ]
+        yield from _emit_forms(H, forms, "nested " + vname)
+
+
+def _emit_forms(H, forms, vname):
+    if True:
         for fname, text in forms:
             offs = []
             out = []
